@@ -66,3 +66,38 @@ Fixpoint insert_desc (e : hentry) (l : list hentry) : list hentry :=
 Definition sort_desc (l : list hentry) : list hentry := fold_right insert_desc [] l.
 Definition of_inv (i : inv) (l : list hentry) : list hentry := filter (fun e => Nat.eqb (he_inv e) i) l.
 Definition get_history (w : hw) (i : inv) : list hentry := sort_desc (of_inv i (hflushed w)).
+
+(* ---- the in-memory store of the writers: `self._history[i].append(e)` is ONE C-level call (append_atomic, from
+   gen/HistoryFacts_gen.v).  When it is not (read the stored sequence, build a longer one, store it back) a writer is two
+   steps: HFlush k takes the k-th pending entry together with a SNAPSHOT of what is stored for its invocation, HStore j stores
+   entry :: snapshot as that invocation's history (other invocations' histories are separate dict values, untouched). *)
+Record hw2 : Set := { hbase : hw; hinflight : list (hentry * list hentry) }.
+Inductive hstep2 : Set := H1 (s : hstep) | HStore (j : nat).
+
+Definition hist_step2 (atomic append_atomic : bool) (w : hw2) (s : hstep2) : hw2 :=
+  if append_atomic then
+    match s with
+    | H1 s1 => {| hbase := hist_step atomic (hbase w) s1; hinflight := hinflight w |}
+    | HStore _ => w
+    end
+  else
+    match s with
+    | H1 (HAct a) => {| hbase := hist_step atomic (hbase w) (HAct a); hinflight := hinflight w |}
+    | H1 (HFlush k) =>
+        match remove_nth k (hpend (hbase w)) with
+        | (Some e, rest) =>
+            {| hbase := {| hcw := hcw (hbase w); hpend := rest; hflushed := hflushed (hbase w) |};
+               hinflight := hinflight w ++ [(e, of_inv (he_inv e) (hflushed (hbase w)))] |}
+        | (None, _) => w
+        end
+    | HStore j =>
+        match remove_nth j (hinflight w) with
+        | (Some (e, snap), rest) =>
+            {| hbase := {| hcw := hcw (hbase w); hpend := hpend (hbase w); hflushed := e :: snap ++ filter (fun x => negb (Nat.eqb (he_inv x) (he_inv e))) (hflushed (hbase w)) |};
+               hinflight := rest |}
+        | (None, _) => w
+        end
+    end.
+Definition hist_run2 (atomic append_atomic : bool) (w : hw2) (l : list hstep2) : hw2 := fold_left (hist_step2 atomic append_atomic) l w.
+Definition hw2_of (ops0 : list op) : hw2 := {| hbase := hw_of ops0; hinflight := [] |}.
+Definition proj2steps (l : list hstep2) : list hstep := flat_map (fun s => match s with H1 s1 => [s1] | HStore _ => [] end) l.
